@@ -251,6 +251,8 @@ impl<
                     .filter_map(|(k, v)| {
                         #[cfg(transparencies_stretto_verif)]
                         crate::verif::yield_point("cleanup_key");
+                        #[cfg(transparencies_stretto_verif)]
+                        crate::verif::emit(|| crate::verif::Event::Note("cleanup_key", *k as i64));
                         self.expiration(k)
                             .and_then(|t| {
                                 if t.is_expired() {
@@ -290,6 +292,8 @@ impl<
             for (k, v) in items.iter() {
                 #[cfg(transparencies_stretto_verif)]
                 crate::verif::yield_point("cleanup_key");
+                #[cfg(transparencies_stretto_verif)]
+                crate::verif::emit(|| crate::verif::Event::Note("cleanup_key", *k as i64));
                 let expiration = self.expiration(k);
                 if let Some(t) = expiration {
                     if t.is_expired() {
